@@ -16,7 +16,8 @@ EXPLANATION = (
     "found in passlib/handlers/*.py and passlib/utils/handlers.py the real body is executed symbolically on an ARBITRARY "
     "str (and ASCII-bytes) input; every path that leaves the function raises only ValueError/TypeError subclasses "
     "(identify: returns a bool, never raises): no IndexError, KeyError, AttributeError, AssertionError, UnicodeError "
-    "outside ValueError. 'An altered digest never verifies' is covered by the bounded stand-in."
+    "outside ValueError. HasSalt._parse_salt / HasRounds._parse_rounds (and sha-crypt's overrides) are proved to validate a parsed "
+    "hash strictly whatever the class was customised with. 'An altered digest never verifies' is covered by the bounded stand-in."
 )
 ASSUMPTIONS = [
     "constructors (cls(...)) raise only ValueError/TypeError: their validators _norm_salt/_norm_rounds/_norm_checksum are under contract separately (C09) and swept by the bounded stand-in",
